@@ -81,10 +81,12 @@ SPEC = {
         "source_shape", "expand_terminates", "expand_never_hangs", "object_like_is_substitution", "function_like_is_substitution",
         "define_undef_scoping", "macro_names_always_distinct", "api_defines_equal_file_defines",
         "expand_refines_spec_partial", "expand_refines_spec", "expand_refines_spec_decided", "object_like_refines_spec",
+        "trailing_function_name_is_invoked",
         "include_is_paste", "pragma_once_once",
         "differs_line_end_before_parenthesis", "differs_unused_argument_expanded", "differs_argument_repainted",
         "differs_painted_function_name_reinvoked", "differs_painted_function_name_reinvoked_acyclic",
-        "differs_function_name_before_vanished_macro", "differs_empty_argument_next_to_paste"]],
+        "differs_function_name_before_vanished_macro", "differs_empty_argument_next_to_paste",
+        "agrees_on_invocation_completed_after_expansion"]],
     "harness": "c12",
     "nontrivial": nontrivial,
     "finding_key": finding_key,
